@@ -6,7 +6,10 @@ import XPathV.Lemmas.StringFns.Nested
 * `StringFns/Basic`  — per-function theorems `fn_<name>_spec` (`Agrees (Model.callFn …) (Spec.callFn …)`),
   `normalizeSpace_spec` (Go `unicode.IsSpace`/`TrimSpace` loop = XML-whitespace normalisation on
   strings where the two whitespace classes coincide), `nodeset_arg_is_first` (+ the oracle-side
-  `spec_nodeset_arg_is_first` and the combination `nodeset_arg_agrees`)
+  `spec_nodeset_arg_is_first` and the combination `nodeset_arg_agrees`); after the repair of
+  `contains`/`starts-with`/`ends-with` (second argument read like the first): `nodeset_arg_is_second`,
+  `spec_nodeset_arg_is_second`, `fn_strtest_strlike_spec` (a string or a node-set in EITHER position:
+  engine = oracle = the test on the two string-values), `fn_strtest_raises` (numbers/booleans still raise)
 * `StringFns/Nested` — the fragment `StrE` of nested string expressions, `strE_good` / `strE_sem`
   (model value = oracle value through `build`, to any depth), `strE_builds` / `strE_total`
   (`build` succeeds when the depth limit suffices: the statements are not vacuous)
